@@ -7,8 +7,8 @@
 \* accessory/container.go:85-136 (ContentHash without values)
 EXTENDS Naturals, Sequences, FiniteSets, TLC
 CONSTANTS Structure, Ctrl, MaxGen, Weak
-VARIABLES disk, running, cur, txt, gen, firstId, last
-vars == <<disk, running, cur, txt, gen, firstId, last>>
+VARIABLES disk, running, cur, txt, gen, firstId, orphan, last
+vars == <<disk, running, cur, txt, gen, firstId, orphan, last>>
 Guard(g) == g \notin Weak
 None == "none"
 
@@ -16,7 +16,7 @@ None == "none"
 Init == /\ disk = [uuid |-> 0, keypair |-> 0, version |-> 0, hash |-> None, pairings |-> {}]
         /\ running = FALSE /\ cur = None /\ txt = [id |-> 0, cnum |-> 0, sf |-> 0, ltpk |-> 0]
         /\ gen = 0              \* fresh-identity counter (each generated uuid / key pair is new)
-        /\ firstId = <<0, 0>> /\ last = <<"init">>
+        /\ firstId = <<0, 0>> /\ orphan = FALSE /\ last = <<"init">>
 
 Start(s) ==
   /\ ~running /\ gen < MaxGen
@@ -29,11 +29,25 @@ Start(s) ==
      IN /\ disk' = [disk EXCEPT !.uuid = id, !.keypair = kp, !.version = ver, !.hash = s]
         /\ gen' = IF newId \/ newKey THEN gen + 1 ELSE gen
         /\ txt' = [id |-> id, cnum |-> ver, ltpk |-> kp,
-                   sf |-> IF disk.pairings = {} \/ ~Guard("sf_from_pairings") THEN 1 ELSE 0]
+                   \* an orphaned key pair entity (see KilledStart) counts as a pairing for an implementation that only
+                   \* counts entities
+                   sf |-> IF (disk.pairings = {} /\ ~orphan) \/ ~Guard("sf_from_pairings") THEN 1 ELSE 0]
         /\ firstId' = IF firstId = <<0, 0>> THEN <<id, kp>> ELSE firstId
-  /\ running' = TRUE /\ cur' = s /\ last' = <<"start", s, disk.hash, disk.version>>
+  /\ running' = TRUE /\ cur' = s /\ last' = <<"start", s, disk.hash, disk.version>> /\ UNCHANGED orphan
 
-Stop == running /\ running' = FALSE /\ cur' = None /\ last' = <<"stop">> /\ UNCHANGED <<disk, txt, gen, firstId>>
+\* The very first start is killed (or fails) after the key pair was stored and before the rest.  Intended design: the device
+\* id is stored before the key pair that is stored under it (guard id_stored_before_keypair), so the next start finds the id
+\* and makes the key pair.  Without the guard the key pair entity is stored under an id that is forgotten: the next start makes
+\* another id and another key pair, and the forgotten entity stays in the database for good.
+KilledStart ==
+  /\ ~running /\ disk.uuid = 0 /\ gen < MaxGen
+  /\ gen' = gen + 1
+  /\ IF Guard("id_stored_before_keypair")
+     THEN disk' = [disk EXCEPT !.uuid = gen + 1] /\ UNCHANGED orphan
+     ELSE orphan' = TRUE /\ UNCHANGED disk
+  /\ last' = <<"killstart">> /\ UNCHANGED <<running, cur, txt, firstId>>
+
+Stop == running /\ running' = FALSE /\ cur' = None /\ last' = <<"stop">> /\ UNCHANGED <<disk, txt, gen, firstId, orphan>>
 
 \* Pairing identifiers: ordinary controller names, and "self" = the accessory's own device id (it is advertised in the TXT
 \* record, so any peer can choose it).  Intended design: the accessory's key pair is not a pairing; a pairing operation that
@@ -52,7 +66,7 @@ Pair(c) == /\ running
                    /\ txt' = [txt EXCEPT !.sf = IF Entities(disk') > 1 THEN 0 ELSE 1]
               ELSE /\ disk' = [disk EXCEPT !.pairings = @ \cup {c}] /\ UNCHANGED gen
                    /\ txt' = [txt EXCEPT !.sf = IF Guard("sf_updated_on_pair") THEN 0 ELSE @]
-           /\ last' = <<"pair", c>> /\ UNCHANGED <<running, cur, firstId>>
+           /\ last' = <<"pair", c>> /\ UNCHANGED <<running, cur, firstId, orphan>>
 \* removal is requested by a verified controller, so some pairing exists; the name removed is arbitrary
 Unpair(c) == /\ running /\ disk.pairings # {} /\ (c \in disk.pairings \/ c = Self)
              /\ IF c = Self /\ Guard("own_key_not_a_pairing")
@@ -62,10 +76,10 @@ Unpair(c) == /\ running /\ disk.pairings # {} /\ (c \in disk.pairings \/ c = Sel
                      /\ txt' = [txt EXCEPT !.sf = IF Entities(disk') > 1 THEN 0 ELSE 1]
                 ELSE /\ disk' = [disk EXCEPT !.pairings = @ \ {c}]
                      /\ txt' = [txt EXCEPT !.sf = IF disk'.pairings = {} /\ Guard("sf_updated_on_unpair") THEN 1 ELSE @]
-             /\ last' = <<"unpair", c>> /\ UNCHANGED <<running, cur, gen, firstId>>
-ChangeValues == running /\ last' = <<"values">> /\ UNCHANGED <<disk, running, cur, txt, gen, firstId>>
+             /\ last' = <<"unpair", c>> /\ UNCHANGED <<running, cur, gen, firstId, orphan>>
+ChangeValues == running /\ last' = <<"values">> /\ UNCHANGED <<disk, running, cur, txt, gen, firstId, orphan>>
 
-Next == (\E s \in Structure : Start(s)) \/ Stop \/ (\E c \in Names : Pair(c) \/ Unpair(c)) \/ ChangeValues
+Next == (\E s \in Structure : Start(s)) \/ KilledStart \/ Stop \/ (\E c \in Names : Pair(c) \/ Unpair(c)) \/ ChangeValues
 Spec == Init /\ [][Next]_vars
 
 \* ---- C20
@@ -76,5 +90,5 @@ CnumRule == [][ last'[1] = "start" =>
                   ELSE IF last'[3] # None THEN txt'.cnum = last'[4] ELSE TRUE ]_vars
 PairingsPersist == [][ last'[1] \in {"start", "stop", "values"} => disk'.pairings = disk.pairings ]_vars
 Bound == disk.version <= 4
-View == <<disk, running, cur, txt, firstId>>
+View == <<disk, running, cur, txt, firstId, orphan>>
 =======================================================================
